@@ -1,28 +1,54 @@
 """C04 diff() with respect to variables computes partial derivatives.
-Tie (translator): Gen/DerivRules.lean family `variableFam` = the trees the real expand_derivatives returns for diff(op(v, v*v), v) for
-every scalar operator; Props/C02/Rules.lean proves C04_rule_instances (each is the directional rule with f = v, g = v^2, f' = 1,
-g' = 2v) and the C02_rule_* theorems (Mathlib HasDerivAt) that each rule is the true derivative of its operator.
-Oracle / failing-input search on the implementation: for generated f over a scalar / vector / tensor variable v = variable(base)
-(v used several times, nested variables w = variable(h(v)), repeated diff, two variables of equal shape in one expression) the
-expansion of diff(f, v) is evaluated and compared with finite differences of f with respect to the value of v; the shape must be
-f.shape + v.shape."""
+Ties.  (translator) Gen/DerivRules.lean family `variableFam`: op(v, v*v) for v = variable(f) and the tree the real expand_derivatives returns for
+diff(op(v, v*v), v); Props/C02/Rules.lean proves C04_rule_instances (each is the directional rule with f = v, g = v^2, f' = 1, g' = 2v, hence
+correct by the C02_rule_* theorems), Props/C02/Tie.lean C04_rules_tied (the hand model reproduces every regenerated tree).
+(correspondence) the hand model `variableD` / `coeffD` (Model/Deriv.lean: the traversal `derivE` of GenericDerivativeRuleset shared with C02, with
+the terminal rules of VariableRuleset) is compared tree-for-tree with apply_derivatives(VariableDerivative(e, v)) for scalar variables
+v = variable(a) that occur in several places of generated expressions (also inside other variables) and for scalar coefficients used as
+variable; the driver reports how often the decidable side conditions DOK of the composition theorem C04_diff_value_partial
+(Props/C04.lean, the induction of Props/C02 carried out for both rulesets) hold.
+Oracle on the implementation: value of expand_derivatives(diff(f, v)) against central finite differences of f in the value of v
+(everything not expressed through v held fixed), scalar and tensor-valued v, shape f.shape + v.shape, repeated diff."""
 import itertools, math, random, warnings
 import common
 from common import Prop, Witness, Failure, LEAN, write_if_changed
-import gen
+import uflio, gen, leandrv
 import derivcommon as dc
+from props.c05 import canon
+
+leandrv.EXES["C02"] = "c02drv"
+
+REFUSALS = (ValueError, NotImplementedError, ZeroDivisionError, ArithmeticError)
+
+
+def at_kink(fun, h=1e-5):
+    """one-sided difference quotients disagree: the sample point sits on a kink (min / max / abs / conditional at a tie), where no derivative exists;
+    central differences at two step sizes agree there (piecewise linear), so derivcommon.fd alone does not notice"""
+    f0, fp, fm = fun(0.0), fun(h), fun(-h)
+    return any(abs((a - b) / h - (b - c) / h) > 1e-3 * max(1.0, abs(a - b) / h, abs(b - c) / h) for a, b, c in zip(fp, f0, fm))
+
+
+def set_comp(val, comp, h):
+    """nested tuple `val` with `h` added at component `comp`"""
+    if not comp:
+        return val + h
+    return tuple(set_comp(v, comp[1:], h) if i == comp[0] else v for i, v in enumerate(val))
 
 
 class C04(Prop):
     pid = "C04"
-    lean_modules = ["UflVerif.Props.C02.Rules"]
-    theorem_prefix = "C0"
-    min_theorems = 30
-    trusted = ["translator harness/translate/derivrules.py (embeds the trees the real expand_derivatives returns for each operator)",
-               "oracle harness/props/c04.py + harness/derivcommon.py: finite differences (two step sizes, kinks skipped) of UFL's own point evaluation",
-               "modelled rather than verified: the theorems cover the per-operator rules of the variable ruleset on a scalar variable; composition through nesting, tensor-valued variables "
-               "(identity tensors, index plumbing), nested variables and repeated diff are covered by the oracle only"]
-    assumptions = ["smoothness at the sample point (stated per rule theorem); 'everything not expressed through v is held fixed' is realised by perturbing only the variable's own value"]
+    lean_modules = ["UflVerif.Props.C04", "UflVerif.Props.C02.Tie", "UflVerif.Props.C02.Rules"]
+    theorem_prefix = "C04_"
+    min_theorems = 8
+    trusted = ["translator harness/translate/derivrules.py (family `variableFam`)",
+               "correspondence harness/props/c04.py + Drivers/C02.lean `(variable e label)` / `(coeff e key)`: hand model Model/Deriv.lean == apply_derivatives(VariableDerivative) on the generated inputs only",
+               "oracle harness/props/c04.py + harness/derivcommon.py: central finite differences in the value of the variable",
+               "modelled rather than verified: tensor-valued variables (identity tensors, fresh indices; the model returns `unsupported`), the dispatcher's handling of nested derivative "
+               "nodes, the DAG caches; covered by the oracle only"]
+    assumptions = ["Still (Props/C02/Defs.lean): along the family of valuations every occurrence of the variable has a value moving with unit speed and every terminal met elsewhere "
+                   "(values, jets under grad) is constant — the formal reading of 'partial derivative with respect to the value of v, everything not expressed through v fixed'",
+                   "Smooth and DOK as for C02 (non-zero denominators, positive bases of general powers, arguments off the kinks, locally constant conditions; decidable rebuild side conditions, "
+                   "measured by the correspondence)"]
 
     def regenerate(self, ctx):
         from translate import derivrules
@@ -31,159 +57,198 @@ class C04(Prop):
         p = LEAN / "UflVerif" / "Gen" / "DerivRules.lean"
         return [(p, write_if_changed(p, txt))]
 
+    # ------------------------------------------------------------------ generation
+    def gen_case(self, rng, k, tensor=False):
+        """(G, e with the variable v in place of a pool coefficient c0, v, c0, a, e_plain): v = variable(a); e_plain has c0 where e has v"""
+        import ufl
+        from ufl.algorithms import replace
+        from ufl.algorithms.analysis import extract_coefficients
+        g = rng.choice([2, 2, 3])
+        G = gen.Gen(rng, gdim=g, math=(k % 2 == 0), compound=(k % 6 == 0), derivs=False, cond=(k % 3 == 0), variables=(k % 2 == 1), reuse=0.7, minmax=(k % 5 == 0))
+        sh = rng.choice([(), (), (), (2,), (2, 2)])
+        e = ufl.as_ufl(G.expr(sh, (), rng.randint(1, 4)))
+        present = [c for c in extract_coefficients(e) if (bool(c.ufl_shape) == tensor)]
+        if not present:          # make the expression depend on a coefficient of the wanted kind
+            ct = G.coeffs[(2,)][0] if tensor else G.coeffs[()][0]
+            e = e * ((ct[0] * ct[1] + 2) if tensor else (ct * ct + 1.5))
+            present = [ct]
+        c0 = rng.choice(present)
+        others = [c for c in G.coeffs.get(tuple(c0.ufl_shape), []) if c is not c0] or [ufl.Coefficient(c0.ufl_function_space())]
+        r = rng.random()
+        if r < 0.3:
+            a = others[0]
+        elif r < 0.6:
+            a = others[0] * 2 + others[0] * G.coeffs[()][1] if c0.ufl_shape else ufl.sin(others[0]) + 2
+        else:
+            a = others[0] * G.consts[()][0] + others[0]
+        v = ufl.variable(a)
+        if k % 5 == 4 and not tensor:      # the coefficient itself as differentiation variable
+            return G, e, c0, c0, None, e
+        e2 = replace(e, {c0: v})
+        return G, e2, v, c0, a, e
+
     def correspondence(self, ctx, ev):
+        import ufl
+        from ufl.algorithms.apply_algebra_lowering import apply_algebra_lowering
+        from ufl.algorithms.apply_derivatives import apply_derivatives
+        from ufl.classes import VariableDerivative, Zero, Variable
         fails = []
         for r in getattr(self, "recs", []):
             if "variable_error" in r:
-                fails.append(Failure("translator", "rule:variable/%s" % r["name"], "expand_derivatives(diff(op(v, v*v), v)) fails: " + r["variable_error"]))
-        ev.cov["rules_regenerated"] = len(getattr(self, "recs", []))
-        return fails
-
-    # ---------------- oracle
-    def one(self, rng, k):
-        """f = body[P := v] for a placeholder coefficient P of v's shape; the derivative w.r.t. the value of v in direction E_c is the
-        finite difference of body[P := base + h E_c] (v does not occur otherwise)."""
-        import ufl
-        from ufl.algorithms import expand_derivatives, replace
-        g = rng.choice([2, 3])
-        G = gen.Gen(rng, gdim=g, math=(k % 2 == 0), compound=(k % 3 == 0), derivs=False, cond=(k % 5 == 0), variables=False, reuse=0.6, minmax=(k % 7 == 0))
-        vshape = rng.choice([(), (), (), (2,), (g,), (2, 2), (2, 3)])
-        if vshape not in G.coeffs:
-            return None
-        P = G.coeffs[vshape][0]                       # placeholder that the body uses
-        others = [c for cs in G.coeffs.values() for c in cs if c is not P]
-        fshape = rng.choice([(), (), (2,), (2, 2)])
-        body = None
-        for _ in range(12):
-            b = G.expr(fshape, (), rng.randint(1, 3))
-            if P in ufl.algorithms.analysis.extract_coefficients(b):
-                body = b
-                break
-        if body is None:
-            body = G.expr(fshape, (), 1) * (P if vshape == () else ufl.inner(P, P))
-        kind = ["plain", "const_var", "nested", "twice", "two_vars", "directed_rule", "plain"][k % 7]
-        base = rng.choice(others) if False else None
-        # the variable wraps an expression over OTHER coefficients (its value is what is perturbed)
-        Bc = ufl.Coefficient(P.ufl_function_space())
-        base = Bc if rng.random() < 0.6 else (2 * Bc + (ufl.Coefficient(P.ufl_function_space())))
-        if kind == "const_var":
-            # a variable whose value is constant over the cell (a Constant or a literal): "spatially constant" is not "independent of v"
-            vshape, fshape = (), ()
-            base = rng.choice([ufl.Constant(G.mesh), ufl.as_ufl(1.5), ufl.Constant(G.mesh) * 2.0])
-        v = ufl.variable(base)
-        extra = {}
-        def mkf(vv):
-            if kind == "const_var":
-                t = [(vv * vv + 1.25) ** vv, 2.0 ** vv, vv ** vv if False else (1.0 + vv * vv) ** ufl.sin(vv), ufl.exp(vv) * vv ** 3, (vv + 2.0) ** (vv * vv)]
-                return t[(k // 7) % len(t)] + ufl.sin(vv)
-            if kind == "nested":
-                w_ = ufl.variable(ufl.sin(vv) * 0.5 + vv if vshape == () else 0.5 * vv)
-                return replace(body, {P: w_}) + (vv if vshape == fshape else 0 * replace(body, {P: vv}))
-            if kind == "directed_rule" and vshape == () and fshape == ():
-                from translate import derivrules
-                names = sorted(n for n in derivrules.operators() if "Restricted" not in n)
-                name = names[(k // 7) % len(names)]
-                ar, mk = derivrules.operators()[name]
-                a = vv * vv + 1.25 if name in ("power", "powerHalf5", "sqrt", "ln", "powerNeg1", "division") else (ufl.sin(vv) * 0.5 if name in ("acos", "asin") else vv)
-                return mk(a) if ar == 1 else mk(a, replace(body, {P: vv}))
-            return replace(body, {P: vv})
-        f = mkf(v)
-        D = ufl.diff(f, v)
-        desc = "diff(f, v) [%s], f of shape %s, v of shape %s in %dD" % (kind, tuple(f.ufl_shape), vshape, g)
-        if kind == "twice":
-            D = ufl.diff(D, v)
-        if kind == "two_vars":
-            v2 = ufl.variable(ufl.Coefficient(P.ufl_function_space()))
-            f2 = replace(body, {P: v2})
-            D = ufl.diff(f, v) + ufl.diff(f2, v2) * 3        # two variable rulesets in one expansion
-            extra["v2"] = (v2, f2)
-        with warnings.catch_warnings():
-            warnings.simplefilter("ignore")
-            X = expand_derivatives(D)
-        problems = []
-        fsh = tuple(f.ufl_shape)
-        want_shape = fsh + tuple(vshape) * (2 if kind == "twice" else 1)
-        if tuple(X.ufl_shape) != want_shape:
-            problems.append("shape %s, should be f.shape + v.shape = %s" % (tuple(X.ufl_shape), want_shape))
-            return ("checked", desc, problems)
-        # data
-        m = {}
-        for t in set(ufl.algorithms.analysis.extract_coefficients(X)) | set(ufl.algorithms.analysis.extract_coefficients(f)) | set(G.terminals()) - {G.x}:
-            if isinstance(t, ufl.Constant):
-                def nest(sh):
-                    return tuple(nest(sh[1:]) for _ in range(sh[0])) if sh else rng.uniform(0.5, 1.5)
-                m[t] = nest(tuple(t.ufl_shape))
-            elif isinstance(t, ufl.Coefficient):
-                m[t] = dc.Field(rng, t.ufl_shape, g)
-        for t in ufl.algorithms.analysis.extract_type(X, ufl.classes.Constant):
-            if t not in m:
-                m[t] = rng.uniform(0.5, 1.5)
-        x0 = tuple(rng.uniform(-0.5, 0.5) for _ in range(g))
-        for ex_ in [X, f, D, base] + ([extra["v2"][1]] if "v2" in extra else []):
-            dc.complete(m, ex_, rng, g)
-        got = dc.evaluate(X, x0, m)
-        vcs = dc.comps(vshape)
-
-        def unit(c):
-            def nest(sh, pre=()):
-                return [nest(sh[1:], pre + (i,)) for i in range(sh[0])] if sh else (1.0 if pre == c else 0.0)
-            return ufl.as_tensor(nest(vshape)) if vshape else 1.0
-
-        def dfun(expr_of_v, c):
-            """h -> value of expr_of_v(base + h E_c), expanded (it may contain earlier derivatives)"""
-            def fun(h):
-                e = expr_of_v(base + h * unit(c))
+                fails.append(Failure("translator", "rule:variable/" + r["name"], "expand_derivatives fails on an operator of the rule family: " + r["variable_error"]))
+        rng = random.Random(ctx.seed * 7919 + 4)
+        n = 320 if ctx.quick else 5000
+        reqs, meta, keep = [], [], []
+        memo = {}
+        for k in range(n):
+            try:
+                case = self.gen_case(rng, k)
+            except Exception:  # noqa
+                continue
+            if case is None:
+                continue
+            G, e2, v, c0, a, e = case
+            keep.append(case)
+            try:
                 with warnings.catch_warnings():
                     warnings.simplefilter("ignore")
-                    return dc.evaluate(expand_derivatives(e), x0, m)
-            return fun
-        want, smooth = {}, True
-        fcs = dc.comps(fsh)
-        if kind == "twice":
-            for c2 in vcs:
-                # finite difference (in direction c2) of the expanded first derivative
-                def first(vv):
-                    return ufl.diff(mkf(ufl.variable(vv)), None) if False else None
-                def fun(h, c2=c2):
-                    vv = ufl.variable(base + h * unit(c2))
-                    e = ufl.diff(mkf(vv), vv)
-                    with warnings.catch_warnings():
-                        warnings.simplefilter("ignore")
-                        return dc.evaluate(expand_derivatives(e), x0, m)
-                d, ok = dc.fd(fun)
-                smooth = smooth and ok
-                for (cc, val) in zip([fc + c1 for fc in fcs for c1 in vcs], d):
-                    want[cc + c2] = val
+                    D = apply_algebra_lowering(ufl.diff(e2, v))
+            except Exception:  # noqa
+                continue
+            if not isinstance(D, VariableDerivative):
+                continue
+            e0, vv = D.ufl_operands
+            try:
+                with warnings.catch_warnings():
+                    warnings.simplefilter("ignore")
+                    r = apply_derivatives(D)
+                impl = "(ok %s)" % uflio.ser(r, memo)
+            except Exception as ex:  # noqa
+                r, impl = None, "(raises)"
+            keep.append((D, r))
+            if isinstance(vv, Variable):
+                rq = "(variable %s %s)" % (uflio.ser(e0, memo), uflio.enc(repr(vv.ufl_operands[1])))
+            else:
+                rq = "(coeff %s %s)" % (uflio.ser(e0, memo), uflio.enc(repr(vv)))
+            reqs.append(rq)
+            if isinstance(vv, Variable):
+                reqs.append("(dokv %s %s -)" % (uflio.ser(e0, memo), uflio.enc(repr(vv.ufl_operands[1]))))
+            else:
+                reqs.append("(dokv %s - %s)" % (uflio.ser(e0, memo), uflio.enc(repr(vv))))
+            meta.append((k, e2, v, r, impl))
+        replies = leandrv.run_driver("C02", reqs)
+        st = dict(agree=0, unsupported=0, both_raise=0, zero_result=0, coefficient_as_variable=0, wf=0, dok=0)
+        distinct = set()
+        for t, (k, e2, v, r, impl) in enumerate(meta):
+            rq, rep, okrep = reqs[2 * t], replies[2 * t], replies[2 * t + 1]
+            if rep == "(unsupported)":
+                st["unsupported"] += 1
+                continue
+            if canon(uflio.alpha(impl)) != canon(uflio.alpha(rep)):
+                if len(fails) < 10:
+                    fails.append(Failure("correspondence", "variable", "case %d: diff(%s, %s) | impl: %s | model: %s" % (
+                        k, str(e2)[:200], str(v)[:60], (str(r)[:200] if r is not None else impl), rep[:300]), case=rq[:3000]))
+                continue
+            st["agree"] += 1
+            if rq.startswith("(coeff"):
+                st["coefficient_as_variable"] += 1
+            if impl == "(raises)":
+                st["both_raise"] += 1
+            elif isinstance(r, Zero):
+                st["zero_result"] += 1
+            elif rq.count("(O ") >= 3:
+                distinct.add(rq)
+            if impl != "(raises)" and okrep.startswith("(ok "):
+                a_, b_ = okrep[4:-1].split()
+                st["wf"] += int(a_)
+                st["dok"] += int(a_) * int(b_)
+        ev.cov["theorem_domain"] = dict(supported_results=st["agree"] - st["both_raise"], well_formed=st["wf"], side_conditions_DOK_hold=st["dok"])
+        ev.cov["evaluations"] = len(meta)
+        ev.cov["distinct_nontrivial"] = len(distinct)
+        ev.cov["traces_validated_against_impl"] = st["agree"]
+        ev.cov["correspondence_outcomes"] = st
+        ev.cov["rules_regenerated"] = len(getattr(self, "recs", []))
+        ev.cov["rule"] = ("correspondence: expand_derivatives(diff(e, v)) for v = variable(a) substituted for a pool coefficient of a generated expression (so v occurs in several places, also "
+                          "inside other variables) and for a scalar coefficient used as variable, tree-exact after alpha-renaming; non-trivial = distinct request with >= 3 operator nodes and a "
+                          "non-zero derivative")
+        ev.cov["samples"] = [dict(expr=str(e2)[:100], v=str(v)[:40], result=str(r)[:100]) for (k, e2, v, r, impl) in meta[:3]]
+        return fails
+
+    # ------------------------------------------------------------------ oracle
+    def one(self, rng, k):
+        import ufl
+        from ufl.algorithms import expand_derivatives
+        from ufl.algorithms.analysis import extract_type
+        tensor = (k % 3 == 2)
+        case = self.gen_case(rng, 2 * k + 1 if k % 2 else 2 * k, tensor=tensor)
+        if case is None and tensor:
+            tensor = False
+            case = self.gen_case(rng, 2 * k, tensor=False)
+        if case is None:
+            return None
+        G, e2, v, c0, a, e = case
+        g = G.gdim
+        second = (k % 7 == 5) and not tensor
+        if second:          # repeated diff: with respect to the coefficient itself (the first derivative is then expressed through it)
+            e2, v, a = e, c0, None
+        base = e
+        with warnings.catch_warnings():
+            warnings.simplefilter("ignore")
+            try:
+                D = ufl.diff(e2, v)
+                if second:
+                    base = expand_derivatives(D)
+                    D = ufl.diff(D, v)
+                X = expand_derivatives(D)
+            except REFUSALS:
+                return ("refused", "diff", [])
+        desc = "%sdiff of an expression of shape %s w.r.t. a %s of shape %s" % ("second " if second else "", tuple(e.ufl_shape),
+                                                                               "coefficient" if a is None else "variable", tuple(v.ufl_shape))
+        ts = {c0}
+        for ex in (e, base, X) + ((a,) if a is not None else ()):
+            for cls in (ufl.classes.Coefficient, ufl.classes.Constant):
+                ts |= set(extract_type(ex, cls))
+        m = {}
+        x0 = tuple(rng.uniform(-0.5, 0.5) for _ in range(g))
+        for t in sorted(ts, key=lambda t: (type(t).__name__, repr(t))):
+            def nest(sh):
+                return tuple(nest(sh[1:]) for _ in range(sh[0])) if sh else rng.uniform(0.4, 1.4)
+            m[t] = nest(tuple(t.ufl_shape))          # plain values: no spatial derivatives occur
+        if a is not None:
+            aval = ufl.as_ufl(a)(x0, m) if not a.ufl_shape else None
+            if a.ufl_shape:
+                flat = dc.evaluate(a, x0, m)
+                def build(sh, it):
+                    return tuple(build(sh[1:], it) for _ in range(sh[0])) if sh else next(it)
+                aval = build(tuple(a.ufl_shape), iter(flat))
         else:
-            for c in vcs:
-                d, ok = dc.fd(dfun(lambda vv: mkf(vv), c))
-                smooth = smooth and ok
-                d2 = None
-                if kind == "two_vars":
-                    v2, f2 = extra["v2"]
-                    base2 = v2.ufl_operands[0]
-                    def fun2(h, c=c):
-                        e = replace(body, {P: base2 + h * unit(c)})
-                        with warnings.catch_warnings():
-                            warnings.simplefilter("ignore")
-                            return dc.evaluate(expand_derivatives(e), x0, m)
-                    d2, ok2 = dc.fd(fun2)
-                    smooth = smooth and ok2
-                for i, fc in enumerate(fcs):
-                    want[fc + c] = d[i] + (3 * d2[i] if d2 is not None else 0.0)
-        if not smooth:
-            return ("nonsmooth", desc, [])
-        gotd = dict(zip(dc.comps(want_shape), got))
-        for c in want:
-            if not dc.close([gotd[c]], [want[c]], 5e-5):
-                problems.append("component %s evaluates to %.9g, finite differences with respect to the value of v give %.9g" % (list(c), gotd[c], want[c]))
-                break
+            aval = m[c0]
+        vcomps = dc.comps(v.ufl_shape)
+        shX = tuple(X.ufl_shape)
+        want_shape = tuple(e.ufl_shape) + tuple(v.ufl_shape)
+        problems = []
+        if shX != want_shape:
+            return ("checked", desc, ["shape %s, expected f.shape + v.shape = %s" % (shX, want_shape)])
+        got = dict(zip(dc.comps(shX), dc.evaluate(X, x0, m)))
+
+        def value_at(expr, shift_comp, h):
+            m2 = dict(m)
+            m2[c0] = set_comp(aval, shift_comp, h)
+            return dc.evaluate(expr, x0, m2)
+        for vc in vcomps:
+            d, ok = dc.fd(lambda h: value_at(base, vc, h))
+            if not ok or at_kink(lambda h: value_at(base, vc, h)):
+                return ("nonsmooth", desc, [])
+            for c_, val in zip(dc.comps(e.ufl_shape), d):
+                if not dc.close([got[c_ + vc]], [val], 3e-5):
+                    problems.append("component %s evaluates to %.9g, finite differences in the value of the variable give %.9g" % (list(c_ + vc), got[c_ + vc], val))
+                    return ("checked", desc, problems)
         return ("checked", desc, problems)
 
     def oracle(self, ctx, ev):
-        rng = random.Random(ctx.seed * 4409 + 4)
-        n = 90 if ctx.quick else 2500
-        out, seen, stats, samples = [], set(), {"checked": 0, "nonsmooth": 0, "skipped": 0}, []
+        rng = random.Random(ctx.seed * 6151 + 4)
+        n = 120 if ctx.quick else 3000
+        out, seen, stats, samples = [], set(), {"checked": 0, "nonsmooth": 0, "refused": 0, "skipped": 0}, []
         for k in range(n):
             try:
                 r = self.one(rng, k)
@@ -194,41 +259,54 @@ class C04(Prop):
                 if "math domain" in str(ex) or isinstance(ex, OverflowError):
                     stats["nonsmooth"] += 1
                     continue
-                if "geometric dimension" in str(ex):
-                    stats["skipped"] += 1
-                    continue
-                r = ("raised", "case %d" % k, ["expand_derivatives(diff(..)) / evaluation raised %s: %s" % (type(ex).__name__, str(ex)[:160])])
+                stats["refused"] += 1
+                continue
+            except REFUSALS:
+                stats["refused"] += 1
+                continue
             except Exception as ex:  # noqa
-                r = ("raised", "case %d" % k, ["expand_derivatives(diff(..)) / evaluation raised %s: %s" % (type(ex).__name__, str(ex)[:160])])
+                r = ("crashed", "diff case %d" % k, ["expand_derivatives / evaluation crashed with %s: %s" % (type(ex).__name__, str(ex)[:160])])
             if r is None:
                 stats["skipped"] += 1
                 continue
             kind, desc, problems = r
             stats[kind] = stats.get(kind, 0) + 1
-            if len(samples) < 4:
+            if len(samples) < 4 and kind == "checked":
                 samples.append(desc)
             if problems:
-                key = "C04:" + desc.split("],")[0] + ":" + problems[0].split(" ")[0]
+                key = "C04:" + kind + ":" + desc.split(" of an")[0] + ":" + problems[0].split(" ")[0]
                 if key not in seen and len(out) < 5:
                     seen.add(key)
                     out.append(Witness("%s: %s" % (desc, problems[0]), key, dict(kind="value", seed=ctx.seed, k=k, problems=problems[:3])))
-        ev.cov["evaluations"] = n
-        ev.cov["distinct_nontrivial"] = stats["checked"]
+        ev.cov["oracle_evaluations"] = n
         ev.cov["oracle_outcomes"] = stats
-        ev.cov["rule"] = ("oracle: f = generated body with a placeholder replaced by v = variable(base), v scalar / vector / tensor; kinds: plain, nested variable, repeated diff, two variables of equal "
-                          "shape in one expansion, one operator of the rule family applied to v; compared with finite differences with respect to the value of v; distinct_nontrivial = smooth cases compared")
-        ev.cov["samples"] = samples
+        ev.cov["oracle_rule"] = ("value of expand_derivatives(diff(f, v)) vs central differences of f in the value of v (each component of a tensor-valued v), v = variable(a) occurring in several "
+                                 "places / a coefficient; shape must be f.shape + v.shape")
+        ev.cov["oracle_samples"] = samples
+        # second, directed oracle (harness/c04_directed.py): constant-valued variables, nested variables, repeated diff, two variables of
+        # one shape, one operator of the rule family applied to v
+        import c04_directed
+        d = c04_directed.C04Directed()
+        ev2 = common.Evidence(ctx)
+        for w in d.oracle(ctx, ev2):
+            w.data["directed"] = True
+            out.append(w)
+        ev.cov["directed_oracle_outcomes"] = ev2.cov.get("oracle_outcomes")
+        ev.cov["directed_oracle_rule"] = ev2.cov.get("rule")
         return out
 
     def replay(self, ctx, data):
         d = data.get("data", {})
-        rng = random.Random(int(d.get("seed", 0)) * 4409 + 4)
+        if d.get("directed"):
+            import c04_directed
+            return c04_directed.C04Directed().replay(ctx, data)
+        rng = random.Random(int(d.get("seed", 0)) * 6151 + 4)
         r = None
         for k in range(int(d.get("k", 0)) + 1):
             try:
                 r = self.one(rng, k)
             except Exception as ex:  # noqa
-                r = ("raised", "case", [str(ex)])
+                r = ("raised", "case", [str(ex)]) if k == int(d.get("k", 0)) else None
         if r and r[2]:
             return Witness("%s: %s" % (r[1], r[2][0]), data.get("key", "C04"), d)
         return None
